@@ -235,3 +235,32 @@ PROPS["C01"] = dict(
                  "(non-empty list, non-empty text, positions inside the source)",
                  "absence of hangs in the runtime is observed (harness timeout), not proved"],
 )
+
+
+def classify_c04(case, model, why):
+    tags = case[2]
+    if "kind=law" in tags:
+        return dict(kind="failing-input", why="compile(render(tree)) differs from the tree: " + case[1][:300])
+    if case[1].startswith("(crash"):
+        return dict(kind="failing-input", why="compiling this rendered tree panicked")
+    return dict(kind="failing-input" if ("chain" in tags or "prefix" in tags or "macro" in tags) else "no-failing-input-found",
+                why="the real parser and the model's parser disagree on this text: " + why)
+
+
+PROPS["C04"] = dict(
+    streams=["C04"],
+    compare=cmp_laws,
+    classify=classify_c04,
+    gate_imports="From Coq Require Import String Ascii.\nFrom Cel.Model Require Import Parser.\nFrom Cel.Proofs Require Import PrecedenceProofs.",
+    exhaustive=True,
+    exhaustive_note="every tree with <= 2 (thorough: <= 3) operators from the complete operator set "
+                    "(?:, ||, &&, 7 relations, 5 arithmetic, !, -, select, index, receiver call, global "
+                    "call, list, map) over 2 leaf kinds, rendered fully and minimally parenthesised; "
+                    "every && / || chain of length 2-64 (plain and mixed); every prefix run 1-6 on 12 "
+                    "operand shapes; each macro around receivers/arguments containing macros; plus "
+                    "random trees of depth <= 7",
+    rule="a case is a rendered tree (or chain / prefix run / macro text); non-trivial when the tree has "
+         ">= 2 operators, so that relative precedence or associativity decides the parse; distinct by text",
+    assumptions=["the round trip itself is checked on the implementation (law cases), not yet proved "
+                 "about the model's parser"],
+)
